@@ -14,5 +14,17 @@ def main():
     print('| seeded | round | what it changes | what it needs | caught by the check of its property | checks that report it with a failing input | checks that report only a broken tie (`no-failing-input-found`) | run at | before strengthening |')
     print('|---|---|---|---|---|---|---|---|---|')
     for r in rows: print('| ' + ' | '.join(str(x) for x in r) + ' |')
+    # the same, read by check
+    by = {}
+    for r in rows:
+        for c in (r[5].split(',') if r[5] != '-' else []): by.setdefault(c, [[], []])[0].append(r[0])
+        for c in (r[6].split(',') if r[6] != '-' else []): by.setdefault(c, [[], []])[1].append(r[0])
+    print()
+    print('| check | seeded defects it reports with a failing input | seeded defects it reports only as a broken tie |')
+    print('|---|---|---|')
+    for c in sorted(by): print('| %s | %s | %s |' % (c, ', '.join(by[c][0]) or '-', ', '.join(by[c][1]) or '-'))
+    n = len(rows); det = sum(1 for r in rows if r[4] == 'yes')
+    print()
+    print('%d seeded defects; %d are reported by the check of the property they were written against (with a failing input or as a broken tie); the others: %s' % (n, det, ', '.join(r[0] for r in rows if r[4] != 'yes') or 'none'))
 if __name__ == '__main__':
     main()
